@@ -221,10 +221,29 @@ func (t *listTarget) nestedInOrdered() bool {
 }
 
 func (t *listTarget) Kind2() string {
+	if t.unionKeyed() {
+		return "unionkey-ordered"
+	}
 	if len(model.KeyNames(t.ListSch)) > 1 {
 		return "multikey"
 	}
 	return "singlekey"
+}
+
+// unionKeyed reports whether a key (or a part of a multi-part key) is a union.
+func (t *listTarget) unionKeyed() bool {
+	kt := t.KeyType
+	if kt.Kind() == reflect.Interface {
+		return true
+	}
+	if kt.Kind() == reflect.Struct {
+		for i := 0; i < kt.NumField(); i++ {
+			if kt.Field(i).Type.Kind() == reflect.Interface {
+				return true
+			}
+		}
+	}
+	return false
 }
 
 func (s *c15State) listPath(m *model.Model) string {
@@ -304,7 +323,7 @@ func c15Exec(c *Case, generate bool) (*Violation, *execStats) {
 	}
 	// every history ends with a sync of the replica, so that a reordering which happened
 	// since the last sync (e.g. delete then re-append) has to come through the diff
-	if !t.nestedInOrdered() {
+	if !t.nestedInOrdered() && !t.unionKeyed() {
 		if v := c15SyncDiff(s); v != nil {
 			st.logf("final sync-diff -> VIOLATION %s", v.Oracle)
 			return v, st
@@ -327,6 +346,12 @@ func c15Draw(r *simrt.Rng, s *c15State, faults bool) Op {
 		kinds = c15OpsFault
 	}
 	k := kinds[r.Intn(len(kinds))]
+	if s.t.unionKeyed() && (k == "rt-gnmi" || k == "sync-diff") {
+		// known finding (pinned case C15-unionkey-ordered-gnmi): ygot cannot address an ordered
+		// list keyed by a union through gNMI paths at all; the history-based search does not
+		// spend its runs on re-finding that and exercises the map operations instead
+		k = "rt-json"
+	}
 	op := Op{K: k, A: map[string]string{}}
 	pi := r.Intn(len(s.pool))
 	via := []string{"map", "parent"}[r.Intn(2)]
